@@ -133,7 +133,7 @@ def enc_value(v):
     return "ok fmt " + wire.enc_fmt(v)
 
 
-def impl(c):
+def _impl(c):
     op = c["op"]
     if op == "eq":
         return "ok %d" % (1 if (real(c["a"]) == real(c["b"])) else 0)
@@ -154,6 +154,15 @@ def impl(c):
             return "none"
         return guarded(lambda: enc_value(eval(rp, dict(NS))))
     raise KeyError(op)
+
+
+def impl(c):
+    try:
+        return _impl(c)
+    except wire.Unencodable as e:
+        return "unencodable:" + repr(e)
+    except Exception as e:  # noqa: BLE001 - observing (==, hash, repr, eval) failed: a reply of its own
+        return "unobservable:%s:%s" % (type(e).__name__, e)
 
 
 def canon_hash_model(reply):
@@ -190,7 +199,7 @@ def only_names_literals_plus(node):
     return None
 
 
-def oracle(c):
+def _oracle(c):
     op = c["op"]
     if op == "eq":
         x, y = real(c["a"]), real(c["b"])
@@ -238,6 +247,13 @@ def oracle(c):
             return "repr evaluates to different characters/formatting: %r vs %r" % (eff_cells_value(v), wire.eff_cells_of_chunks(c["f"]))
         return None
     raise KeyError(op)
+
+
+def oracle(c):
+    try:
+        return _oracle(c)
+    except Exception as e:  # noqa: BLE001
+        return "observing the values raised %s: %s" % (type(e).__name__, e)
 
 
 def footprint(c, what):
